@@ -38,10 +38,18 @@ Memmem(h, n) ==
   ELSE LET C == {i \in 1..(Len(h) - Len(n) + 1) : h[i] = n[1] /\ MatchAt(h, n, i)}
        IN IF C = {} THEN -1 ELSE SimdMin(C) - 1
 
-Memset(d, v) == [i \in 1..Len(d) |-> v]
+\* memset / memcpy are run on the window (off, off+n] (1-based: off+1..off+n) of a
+\* larger buffer; the bytes around the window are a guard band that must survive.
+InWindow(i, off, n) == i > off /\ i <= off + n
 
-\* Equal lengths: the destination becomes the source.  Different lengths are
-\* outside memcpy's meaning: whatever the portable path does (it copies the
-\* common prefix) is admissible, and the accelerated paths must repeat it.
-MemcpyOk(d, s, r) == Len(d) = Len(s) => r = s
+MemsetBuf(buf, off, n, v) == [i \in 1..Len(buf) |-> IF InWindow(i, off, n) THEN v ELSE buf[i]]
+
+\* Source as long as the window: the window becomes the source.  Different
+\* lengths are outside memcpy's meaning: whatever the portable path does (it
+\* copies the common prefix) is admissible, the accelerated paths must repeat
+\* it - but nothing outside the window may change in any case.
+MemcpyBufOk(buf, off, n, src, r) ==
+  /\ Len(r) = Len(buf)
+  /\ \A i \in 1..Len(buf) : ~InWindow(i, off, n) => r[i] = buf[i]
+  /\ Len(src) = n => \A i \in 1..n : r[off + i] = src[i]
 =============================================================================
